@@ -25,6 +25,7 @@ PROPS = {
         ],
     },
     "C04": {
+        "technique": "contract-based deductive verification (Verus) of functions extracted mechanically from /repo on every run; crypto::verify_token by a Kani harness on its extracted text",
         "units": ["U1", "U4", "U3", "U12", "U13"],
         "kani": ["U2b"],
         "level": "proof",
@@ -43,6 +44,7 @@ PROPS = {
         ],
     },
     "C01": {
+        "technique": "contract-based deductive verification (Verus) of functions extracted mechanically from /repo on every run; crypto::verify_token by a Kani harness on its extracted text",
         "units": ["U3", "U4", "U2", "U5", "U12"],
         "kani": ["U2b"],
         "level": "proof",
@@ -72,6 +74,7 @@ PROPS = {
                         "cookie timestamps and the configured expiry are below 2^63 (no u64 overflow in timestamp + expiry)"],
     },
     "C03": {
+        "technique": "contract-based deductive verification (Verus) of functions extracted mechanically from /repo on every run; the fallback chain of FixedLocalizationAdapter only by a declared bounded stand-in (exhaustive finite sweep of the real code)",
         "units": ["U3", "U4"],
         "level": "proof",
         "witness": [(r"locale|no_target", "locale"), (r".", "session")],
@@ -85,6 +88,7 @@ PROPS = {
         "assumptions": ["IpAddr::to_string is the canonical text (ip_text, uninterpreted)"],
     },
     "C06": {
+        "technique": "contract-based deductive verification (Verus) of functions extracted mechanically from /repo on every run; crypto::verify_token by a Kani harness on its extracted text",
         "units": ["U3", "U4"],
         "kani": ["U2b"],
         "level": "proof",
@@ -97,6 +101,7 @@ PROPS = {
         "assumptions": ["match_packet! is expanded from the macro definition in connection.rs by a small macro_rules interpreter (R4)"],
     },
     "C07": {
+        "technique": "contract-based deductive verification (Verus) of the keep-alive state logic extracted from /repo on every run; the wall-clock half only by a declared bounded stand-in (real Connection::listen under the paused tokio clock)",
         "units": ["U4", "U3"],
         "level": "proof",
         "witness": [(r".", "keepalive")],
@@ -193,6 +198,7 @@ PROPS = {
         "assumptions": ["url crate: Url::parse_with_params appends each pair form-encoded, and a conforming server decodes form_encode(pairs) back to exactly pairs"],
     },
     "C13": {
+        "technique": "contract-based deductive verification: Kani/CBMC (bit-precise f32, loop-free harnesses over full-domain symbolic inputs) on the unmodified text of RateLimiter::{new, enqueue} extracted from /repo on every run, plus Verus history lemmas over the proved step contract",
         "units": ["U8h"],
         "kani": ["U8"],
         "level": "proof",
@@ -258,6 +264,7 @@ PROPS = {
                         "suspension points erased (R1): the adapters are sequential"],
     },
     "C20": {
+        "technique": "contract-based deductive verification (Verus) of the GameServer conversion and the per-event cache steps extracted from /repo on every run; the watcher event loop only by a declared bounded stand-in (scripted and seeded watch histories against a loopback Kubernetes API mock)",
         "units": ["U15"],
         "level": "proof",
         "witness": [(r".", "agones")],
